@@ -41,7 +41,7 @@ Proof. unfold rule_cfg, bucket_count. cbn [gn gbl]. split; reflexivity. Qed.
 Lemma try_pass_is_leaf c b now :
   try_pass c b now =
   (let r := try_pass_leaf (probe_num c) (state b) (next_retry b) now true in
-   let s := seq_run c now b (snd r) in (sb s, fst r, sev s, shook s)).
+   let s := seq_run c now b (snd r) in (q_b s, fst r, q_ev s, q_hook s)).
 Proof.
   unfold try_pass, try_pass_leaf, retry_arrived. destruct b as [st nr cp sl gh]. cbn [state next_retry].
   destruct st; cbn; try reflexivity.
@@ -51,15 +51,15 @@ Qed.
 (* the exit hook of a probe whose entry was blocked *)
 Lemma rollback_is_leaf c b now :
   rollback b =
-  (let s := fold_left (prim c now) (rollback_leaf true (bst_eqb (state b) HalfOpen)) {| sb := b; sev := []; shook := false |} in
-   (sb s, sev s)).
+  (let s := fold_left (prim c now) (rollback_leaf true (bst_eqb (state b) HalfOpen)) {| q_b := b; q_ev := []; q_hook := false |} in
+   (q_b s, q_ev s)).
 Proof. unfold rollback, rollback_leaf. destruct b as [st nr cp sl gh]. destruct st; reflexivity. Qed.
 
 Lemma decide_is_leaf c b now bad sl2 h2 B T :
   retry_value now (retry_ms c) = now + retry_ms c ->
   decide c b now bad sl2 h2 B T =
   (let s := seq_run c now (set_slots b sl2 h2) (decide_leaf c (state b) (state b) (cur_probe b + 1) bad B T) in
-   (sb s, sev s)).
+   (q_b s, q_ev s)).
 Proof.
   intros Hr. unfold decide, decide_leaf, set_slots. destruct b as [st nr cp sl gh]. cbn [state next_retry cur_probe slots ghist].
   destruct st.
@@ -86,7 +86,7 @@ Lemma on_complete_is_leaf c b now rt err :
     = adds_leaf bad ++ decide_leaf c (state b) (state b) (cur_probe b + 1) bad B T
   /\ on_complete c b now rt err =
      (let s := seq_run c now (set_slots b sl2 (ghist b ++ [(now, bad)]))
-                 (decide_leaf c (state b) (state b) (cur_probe b + 1) bad B T) in (sb s, sev s)).
+                 (decide_leaf c (state b) (state b) (cur_probe b + 1) bad B T) in (q_b s, q_ev s)).
 Proof.
   intros Hn Hr sl1 Hc. cbv zeta. split; [reflexivity|].
   unfold on_complete. replace (now <=? 0) with false by (symmetry; apply Z.leb_gt; lia).
